@@ -153,12 +153,33 @@ def requiredFields (d : Doc) (σ : Space) (props : List (String × Schema)) (fie
     | none, some p => (match p.state with | .required => !optionLikeT σ p.ty | _ => false)
     | _, none => false
 
-def structE (rec : Schema → Id → Bool) (d : Doc) (σ : Space) (props : List (String × Schema)) (req : List String)
+def structPlainE (rec : Schema → Id → Bool) (d : Doc) (σ : Space) (props : List (String × Schema)) (req : List String)
     (addl : Additional Schema) (fields : List Field) (deny : Bool) : Bool :=
   !hasFlatten fields && nodupB (fields.map (·.wire)) && nodupB (props.map (·.1)) &&
   (match addl with | .open_ => true | .closed => deny | .schema _ => false) &&
   props.all (fun q => fields.any (fun p => p.wire == q.1)) &&
   fieldsE rec σ props req (match addl with | .open_ => true | _ => false) fields && requiredFields d σ props fields req
+
+/-- `additionalProperties: <schema>`: the named members enforce the declared properties as above, and every other member
+    is read by the one flattened member, a map with plain string keys whose value type enforces that schema -/
+def structFlatE (rec : Schema → Id → Bool) (d : Doc) (σ : Space) (props : List (String × Schema)) (req : List String)
+    (addl : Additional Schema) (fields : List Field) : Bool :=
+  (match addl with
+   | .schema sa =>
+     (match fields.filter (fun p => p.rename == .flatten) with
+      | [e] =>
+        (match σ.get e.ty with
+         | some ⟨.map k vt, _, _⟩ => (match σ.get k with | some ⟨.string, _, _⟩ => true | _ => false) && rec sa vt
+         | _ => false)
+      | _ => false)
+   | _ => false) &&
+  nodupB ((Conv.namedOf fields).map (·.wire)) && nodupB (props.map (·.1)) &&
+  props.all (fun q => (Conv.namedOf fields).any (fun p => p.wire == q.1)) &&
+  fieldsE rec σ props req false (Conv.namedOf fields) && requiredFields d σ props (Conv.namedOf fields) req
+
+def structE (rec : Schema → Id → Bool) (d : Doc) (σ : Space) (props : List (String × Schema)) (req : List String)
+    (addl : Additional Schema) (fields : List Field) (deny : Bool) : Bool :=
+  structPlainE rec d σ props req addl fields deny || structFlatE rec d σ props req addl fields
 
 /-- the payload of a variant is enforced by the schema that stands for it -/
 def variantE (rec : Schema → Id → Bool)
